@@ -252,12 +252,12 @@ fn driver(i: usize, idl: &Idl, sigs: &[(String, String, Vec<String>)]) -> Result
         s.push_str(&format!("            crate::rt::record_args({:?}, Value::Object(seen));\n            let sc = crate::rt::next_script();\n            let kind = sc[\"kind\"].as_str().unwrap_or(\"\").to_string();\n", m.name));
         let reply_args: Vec<String> = outfields.iter().map(|(n, _)| format!("r.{}", raw(n))).collect();
         s.push_str(&format!(
-            "            if kind == \"reply\" {{\n                let r: g::{m}_Reply = match from_value(sc[\"value\"].clone()) {{ Ok(r) => r, Err(e) => {{ crate::rt::harness_error(format!(\"script value does not fit {m}_Reply: {{}}\", e)); return Ok(()); }} }};\n                return call.reply({args});\n            }}\n",
+            "            if kind == \"reply\" {{\n                let r: g::{m}_Reply = match from_value(sc[\"value\"].clone()) {{ Ok(r) => r, Err(e) => {{ crate::rt::harness_error(format!(\"script value does not fit {m}_Reply: {{}}\", e)); return Err(varlink::context!(varlink::ErrorKind::ConnectionClosed)); }} }};\n                return call.reply({args});\n            }}\n",
             m = m.name,
             args = reply_args.join(", ")
         ));
         s.push_str(&format!(
-            "            if kind == \"stream\" {{\n                let vals = sc[\"values\"].as_array().cloned().unwrap_or_default();\n                let n = vals.len();\n                for (k, v) in vals.into_iter().enumerate() {{\n                    call.set_continues(k + 1 < n);\n                    let r: g::{m}_Reply = match from_value(v) {{ Ok(r) => r, Err(e) => {{ crate::rt::harness_error(format!(\"script value does not fit {m}_Reply: {{}}\", e)); return Ok(()); }} }};\n                    call.reply({args})?;\n                }}\n                return Ok(());\n            }}\n",
+            "            if kind == \"stream\" {{\n                let vals = sc[\"values\"].as_array().cloned().unwrap_or_default();\n                let n = vals.len();\n                for (k, v) in vals.into_iter().enumerate() {{\n                    call.set_continues(k + 1 < n);\n                    let r: g::{m}_Reply = match from_value(v) {{ Ok(r) => r, Err(e) => {{ crate::rt::harness_error(format!(\"script value does not fit {m}_Reply: {{}}\", e)); return Err(varlink::context!(varlink::ErrorKind::ConnectionClosed)); }} }};\n                    call.reply({args})?;\n                }}\n                return Ok(());\n            }}\n",
             m = m.name,
             args = reply_args.join(", ")
         ));
@@ -268,7 +268,7 @@ fn driver(i: usize, idl: &Idl, sigs: &[(String, String, Vec<String>)]) -> Result
             };
             let eargs: Vec<String> = ef.iter().map(|(n, _)| format!("a.{}", raw(n))).collect();
             s.push_str(&format!(
-                "            if kind == \"error:{e}\" {{\n                let a: g::{e}_Args = match from_value(sc[\"value\"].clone()) {{ Ok(a) => a, Err(x) => {{ crate::rt::harness_error(format!(\"script value does not fit {e}_Args: {{}}\", x)); return Ok(()); }} }};\n                let _ = &a;\n                return call.reply_{sn}({args});\n            }}\n",
+                "            if kind == \"error:{e}\" {{\n                let a: g::{e}_Args = match from_value(sc[\"value\"].clone()) {{ Ok(a) => a, Err(x) => {{ crate::rt::harness_error(format!(\"script value does not fit {e}_Args: {{}}\", x)); return Err(varlink::context!(varlink::ErrorKind::ConnectionClosed)); }} }};\n                let _ = &a;\n                return call.reply_{sn}({args});\n            }}\n",
                 e = e.name,
                 sn = snake(&e.name),
                 args = eargs.join(", ")
@@ -284,7 +284,7 @@ fn driver(i: usize, idl: &Idl, sigs: &[(String, String, Vec<String>)]) -> Result
     }
     s.push_str("            g::ErrorKind::Varlink_Error => json!({\"variant\": \"Varlink_Error\", \"source\": format!(\"{:?}\", e.source_varlink_kind())}),\n            g::ErrorKind::VarlinkReply_Error => json!({\"variant\": \"VarlinkReply_Error\", \"source\": format!(\"{:?}\", e.source_varlink_kind())}),\n        }\n    }\n");
     // client driver
-    s.push_str("    pub fn drive(cases: &Value) -> Value {\n        let (conn, _tap) = crate::rt::setup(Box::new(g::new(Box::new(Srv))));\n        let mut client = g::VarlinkClient::new(conn);\n        let _ = &mut client;\n        let mut results: Vec<Value> = Vec::new();\n        for case in cases.as_array().cloned().unwrap_or_default() {\n            crate::rt::begin_case(&case);\n            let before = crate::rt::PROCESSED.load(std::sync::atomic::Ordering::SeqCst);\n            let method = case[\"method\"].as_str().unwrap_or(\"\").to_string();\n            let mode = case[\"mode\"].as_str().unwrap_or(\"call\").to_string();\n            let mut client_result = Value::Null;\n            if mode == \"raw\" {\n                crate::rt::raw_request(Box::new(g::new(Box::new(Srv))), &case[\"raw\"]);\n            }\n");
+    s.push_str("    pub fn drive(cases: &Value) -> Value {\n        let (conn, mut _tap) = crate::rt::setup(Box::new(g::new(Box::new(Srv))));\n        let mut client = g::VarlinkClient::new(conn);\n        let _ = &mut client;\n        let mut results: Vec<Value> = Vec::new();\n        for case in cases.as_array().cloned().unwrap_or_default() {\n            if _tap.is_finished() {\n                // the previous case ended with the service side closing: fresh connection\n                let (c2, t2) = crate::rt::setup(Box::new(g::new(Box::new(Srv))));\n                client = g::VarlinkClient::new(c2);\n                _tap = t2;\n            }\n            crate::rt::begin_case(&case);\n            let before = crate::rt::PROCESSED.load(std::sync::atomic::Ordering::SeqCst);\n            let method = case[\"method\"].as_str().unwrap_or(\"\").to_string();\n            let mode = case[\"mode\"].as_str().unwrap_or(\"call\").to_string();\n            let mut client_result = Value::Null;\n            if mode == \"raw\" {\n                crate::rt::raw_request(Box::new(g::new(Box::new(Srv))), &case[\"raw\"]);\n            }\n");
     for (m, (fname, _sig, _)) in methods.iter().zip(sigs.iter()) {
         let infields = match &m.a {
             Ty::Struct(f) => f.clone(),
@@ -314,6 +314,7 @@ pub mod rt {
 
     pub static PROCESSED: std::sync::atomic::AtomicUsize = std::sync::atomic::AtomicUsize::new(0);
     pub struct CaseState { pub script: Value, pub seen: Vec<Value>, pub wire_requests: Vec<Value>, pub wire_replies: Vec<Value>, pub harness_errors: Vec<String>, pub server_closed: bool }
+    pub static TAP_ALIVE: std::sync::atomic::AtomicBool = std::sync::atomic::AtomicBool::new(false);
     static STATE: Mutex<Option<CaseState>> = Mutex::new(None);
 
     pub fn begin_case(case: &Value) {
@@ -322,7 +323,7 @@ pub mod rt {
     pub fn end_case(client_result: Value, expect_processed: usize) -> Value {
         // a oneway call returns before the server has handled it: wait for the tap thread
         let t0 = std::time::Instant::now();
-        while PROCESSED.load(std::sync::atomic::Ordering::SeqCst) < expect_processed && t0.elapsed() < std::time::Duration::from_secs(5) {
+        while PROCESSED.load(std::sync::atomic::Ordering::SeqCst) < expect_processed && TAP_ALIVE.load(std::sync::atomic::Ordering::SeqCst) && t0.elapsed() < std::time::Duration::from_secs(5) {
             std::thread::sleep(std::time::Duration::from_micros(50));
         }
         let st = STATE.lock().unwrap().take().unwrap();
@@ -339,12 +340,18 @@ pub mod rt {
     pub fn setup(iface: Box<dyn varlink::Interface + Send + Sync>) -> (Arc<RwLock<Connection>>, std::thread::JoinHandle<()>) {
         let svc = VarlinkService::new("v", "p", "1", "u", vec![iface]);
         let (a, b) = UnixStream::pair().unwrap();
+        // a reply that never comes must end the case, not the run
+        let _ = a.set_read_timeout(Some(std::time::Duration::from_secs(20)));
         let r: Box<dyn Read + Send + Sync> = Box::new(a.try_clone().unwrap());
         let w: Box<dyn Write + Send + Sync> = Box::new(a);
         let mut c = Connection::default();
         c.reader = Some(BufReader::new(r));
         c.writer = Some(w);
+        TAP_ALIVE.store(true, std::sync::atomic::Ordering::SeqCst);
         let h = std::thread::spawn(move || {
+            struct Gone;
+            impl Drop for Gone { fn drop(&mut self) { TAP_ALIVE.store(false, std::sync::atomic::Ordering::SeqCst); } }
+            let _gone = Gone;
             let mut rd = BufReader::new(b.try_clone().unwrap());
             let mut wr = b;
             loop {
@@ -448,11 +455,22 @@ fn judge_case(ctx: &Ctx, idl: &Idl, text: &str, case: &Value, res: &Value) {
     ctx.case(if has_fields { Some(hash_of(&(text, method, case.to_string()))) } else { None });
     let wit = |msg: String| json!({"engine": "c08", "definition": text, "case": case, "observed": res, "message": msg});
     if let Some(e) = res.get("harness_error") {
-        ctx.inconclusive(json!({"harness": e, "case": case}));
+        if e.as_str().map(|s| s.contains("do not fit")).unwrap_or(false) {
+            ctx.violation("c08:idl-conformant-value-rejected-by-generated-type", wit(format!("{}", e)));
+        } else {
+            ctx.inconclusive(json!({"harness": e, "case": case}));
+        }
         return;
     }
     if res["harness_errors"].as_array().map(|a| !a.is_empty()).unwrap_or(false) {
-        ctx.inconclusive(json!({"harness": res["harness_errors"], "case": case}));
+        // script values are built from the IDL's own types: if one does not deserialise into the
+        // generated reply / error-parameter type, the generated client would reject the same
+        // conformant reply coming from a foreign service
+        if res["harness_errors"].as_array().unwrap().iter().any(|e| e.as_str().map(|s| s.contains("does not fit")).unwrap_or(false)) {
+            ctx.violation("c08:idl-conformant-value-rejected-by-generated-type", wit(format!("{}", res["harness_errors"])));
+        } else {
+            ctx.inconclusive(json!({"harness": res["harness_errors"], "case": case}));
+        }
         return;
     }
     let wire_req = res["wire_requests"].as_array().cloned().unwrap_or_default();
